@@ -393,6 +393,18 @@ func (le *layoutEngine) eval(pkg *packages.Package, e Expr, collect bool) (layou
 				}
 			}
 			return layoutVal{}, fmt.Errorf("%s has no field %s in its literal", arg(0), arg(1))
+		case "strlen":
+			v, err := le.eval(pkg, x.Args[0], collect)
+			if err != nil {
+				return v, err
+			}
+			if v.s == nil {
+				if collect {
+					return bigOf(0), nil
+				}
+				return layoutVal{}, fmt.Errorf("strlen of a non-string")
+			}
+			return bigOf(int64(len(*v.s))), nil
 		case "govar":
 			init := le.varLiteral(pkg, arg(0))
 			if init == nil {
